@@ -130,6 +130,20 @@ def dom_of(e, binding=None):
     return None
 
 
+_SEV = {}
+
+
+def _stringer_eval(prog):
+    from cxxobj import CxxEvaluator
+    if id(prog) not in _SEV:
+        ev = CxxEvaluator({}, {}, prog=prog)
+        ev._brev = {c["n"]: ("enum", c["n"], c["v"]) for e in prog.enums.values() if e["q"] == "brevity" for c in e["consts"]}
+        if set(ev._brev) < {"full", "brief"}:
+            raise Broken("enum brevity vanished")
+        _SEV[id(prog)] = ev
+    return _SEV[id(prog)]
+
+
 def writer_tables(prog):
     """dom function name -> (prefix, {value: full name}) for every dw_simple_dom"""
     out = {}
@@ -149,32 +163,45 @@ def writer_tables(prog):
         sf = prog.funcs.get(sref["fid"])
         if sf is None:
             raise Broken("stringer %s has no body" % sref["q"])
-        sw = [x for x in walk(sf["body"]) if x.get("k") == "switch"]
-        if len(sw) != 1:
-            raise Broken("stringer %s is not a single switch table (unmodelled shape)" % sref["q"])
+        # the table is read off by interpreting the stringer (with `abbreviate`) on every integer constant that occurs in it
+        # - case labels, operands of comparisons - in full and in brief form: any spelling (switch, if-chain, lookup) gives the
+        # same table
+        cands = set()
+        for x in walk(sf["body"]):
+            if x.get("k") == "case":
+                for lab in (x.get("lo"), x.get("hi")):
+                    v = intval(lab) if lab is not None else None
+                    if v is not None:
+                        cands.add(v)
+                lo, hi = (intval(x.get("lo")) if x.get("lo") is not None else None), (intval(x.get("hi")) if x.get("hi") is not None else None)
+                if lo is not None and hi is not None and 0 <= hi - lo <= 0x2000:
+                    cands.update(range(lo, hi + 1))
+            elif x.get("k") == "int":
+                cands.add(x["v"])
+            elif "iv" in x and x.get("k") in ("ref", "bin", "un", "cast"):
+                try:
+                    cands.add(int(x["iv"]))
+                except Exception:
+                    pass
+        if not cands:
+            raise Broken("stringer %s names no integer constant (unmodelled shape)" % sref["q"])
+        ev = _stringer_eval(prog)
         table = {}
-        for labels, stmts in switch_groups(sw[0]):
-            rets = [x for s in stmts for x in walk(s) if x.get("k") == "return"]
-            if not rets:
-                raise Broken("case without return in %s" % sref["q"])
-            r = unwrap(rets[0]["e"])
-            name = None
-            if isinstance(r, dict) and r.get("k") == "call" and r.get("fn") == "abbreviate":
-                name = strval(r["a"][0])
-                plen = intval(r["a"][1])
-            elif isinstance(r, dict) and r.get("k") == "null":
-                name = None
-            else:
-                raise Broken("unmodelled return in %s at %s" % (sref["q"], rets[0]["l"]))
-            for l in labels:
-                if l == "default":
-                    if name is not None:
-                        raise Broken("default label of %s returns a name" % sref["q"])
-                    continue
-                v = intval(l)
-                if v is None:
-                    raise Broken("non-constant case label in %s" % sref["q"])
-                table[v] = (name, plen - 1 if name else None)
+        for v in sorted(cands):
+            if not (-1 <= v <= 0x7fffffff):
+                continue
+            names = []
+            for b_ in ("full", "brief"):
+                try:
+                    r = ev.call(sf, None, [v, ev._brev[b_]])
+                except Exception as x_:
+                    raise Broken("stringer %s cannot be interpreted on %d: %s" % (sref["q"], v, x_))
+                names.append(r.cstr() if hasattr(r, "cstr") else None)
+            if names[0] is None and names[1] is None:
+                continue
+            if names[0] is None or names[1] is None or not names[0].endswith(names[1]):
+                raise Broken("stringer %s gives inconsistent full/brief names for %d: %s" % (sref["q"], v, names))
+            table[v] = (names[0], len(names[0]) - len(names[1]) - 1)
         out[f["q"]] = {"prefix": prefix, "table": table, "stringer": sref["q"], "where": f["l"], "init": i}
     return out
 
@@ -359,73 +386,67 @@ def reader_escape_table(prog):
 
 
 def z2(prog):
+    """brief rendering of strings reads back as the same bytes: dumper::dump_charp interpreted from source (std::ostream with
+    hex/setw/setfill modelled) on every single byte 1..255 and 0, on every byte followed by `1`, `a`, `s`, `(` and on a few longer
+    strings; the text it writes is handed to the simulated scanner (flexsim: rule selection from lexer.ll's patterns, actions
+    interpreted) and must come back as one string literal holding exactly the original bytes."""
+    import flexsim
+    from cxxobj import CxxEvaluator, Obj, OStream, Ptr, OutOfBounds
+    from absint import Thrown
     inst, findings = [], []
     dc = prog.func_opt("dumper::dump_charp")
     if dc is None:
         raise Broken("anchor dumper::dump_charp vanished")
-    sws = [x for x in walk(dc["body"]) if x.get("k") == "switch"]
-    if len(sws) != 1:
-        raise Broken("dump_charp no longer has one escape switch (unmodelled shape)")
-    rtab, default_self, has_oct, has_hex, specials, rloc = reader_escape_table(prog)
-    if not (has_oct and has_hex and default_self):
-        raise Broken("lexer no longer has the octal / hex / default escape rules the reader model relies on")
-    wtab = {}
-    default_stmts = None
-    for labels, stmts in switch_groups(sws[0]):
-        outs = []
-        for s in stmts:
-            for c in calls(s):
-                if c.get("op") == "<<" and len(c["a"]) == 2:
-                    v = strval(c["a"][1])
-                    if v is not None:
-                        outs.append(v)
-        for l in labels:
-            if l == "default":
-                default_stmts = stmts
-                continue
-            b = _chr_of(l)
-            if b is None:
-                raise Broken("non-constant case label in dump_charp")
-            if len(outs) != 1:
-                raise Broken("escape row for byte %d in dump_charp does not emit exactly one literal" % b)
-            wtab[b] = outs[0]
-    if default_stmts is None:
-        raise Broken("dump_charp has no default branch")
+    fmt = {c["n"]: ("enum", c["n"], c["v"]) for e in prog.enums.values() if e["q"] == "dumper::format" for c in e["consts"]}
+    if "brief" not in fmt:
+        raise Broken("enum dumper::format vanished")
+    ev = CxxEvaluator({"ctor:ios_flag_saver": lambda ev_, o, a: None,
+                       "isprint": lambda ev_, o, a: 1 if 32 <= int(a[0]) < 127 else 0}, {}, prog=prog)
+    sc = flexsim.Scanner(prog)
+    where = "dwgrep/" + dc["l"]
 
-    def reads_back(s, b):
-        if len(s) == 2 and s[0] == "\\":
-            c = ord(s[1])
-            if chr(c) in "0123":
-                return False, "a 1-digit octal escape absorbs a following octal digit (bytes %d,'1' would read back as one byte)" % b
-            if chr(c) == "x":
-                return False, "`\\x` needs two hex digits"
-            if c in rtab:
-                return rtab[c] == b, "the lexer reads `\\%s` as byte %s" % (chr(c), rtab[c])
-            return c == b, "the lexer reads `\\%s` as `%s`" % (chr(c), chr(c))
-        if len(s) == 4 and s[0] == "\\" and s[1] in "0123" and all(ch in "01234567" for ch in s[1:]):
-            return int(s[1:], 8) == b, "octal escape denotes %d" % int(s[1:], 8)
-        if len(s) == 4 and s[:2] == "\\x" and all(ch in "0123456789abcdefABCDEF" for ch in s[2:]):
-            return int(s[2:], 16) == b, "hex escape denotes %d" % int(s[2:], 16)
-        if len(s) == 2 and s[0] == "%" and s[1] == "%":
-            return b == ord("%"), "`%%` denotes a percent sign"
-        return False, "`%s` is not an escape sequence the lexer reads as one byte" % s
-    for b, s in sorted(wtab.items()):
-        ok, why = reads_back(s, b)
-        key = "Z2:byte:%d" % b
-        inst.append((key, {"byte": b, "written": s, "reads_back": ok}))
-        if not ok:
-            findings.append({"key": key, "where": "dwgrep/dwgrep.cc:%s" % dc["l"].split(":")[-1],
-                             "msg": "brief string rendering writes byte %d (%r) as `%s`, which does not read back as that byte: %s" % (b, chr(b), s, why),
-                             "detail": None})
-    # bytes that are special to the reader inside a string literal must have a row
-    for ch in sorted(specials):
-        key = "Z2:special:%s" % ch
-        has = ord(ch) in wtab
-        inst.append((key, {"char": ch, "escaped_by_writer": has}))
-        if not has:
-            findings.append({"key": key, "where": "dwgrep/dwgrep.cc:%s" % dc["l"].split(":")[-1],
-                             "msg": "`%s` starts a special sequence inside string literals (lexer.ll) but the brief string writer prints it raw, so the rendering does not read back as the same bytes" % ch,
-                             "detail": None})
+    def written(bs):
+        o = OStream()
+        cells = [x - 256 if x >= 128 else x for x in bs] + [0]
+        ev.steps = 0
+        ev.call(dc, Obj("dumper"), [o, Ptr(cells, 0), len(bs), fmt["brief"]])
+        return o.text().encode("latin-1")
+
+    def read(text):
+        try:
+            toks, _ = sc.tokens(text)
+        except flexsim.ScanError as x:
+            return "scan error: %s" % x
+        if [t[0] for t in toks] != ["TOK_LIT_STR", "TOK_EOF"]:
+            return "tokens %s" % [t[0] for t in toks]
+        kids = toks[0][1][2]
+        if not kids:
+            return b""
+        if len(kids) == 1 and not kids[0][2] and kids[0][0] != "CAT":
+            return kids[0][1]
+        return "a format string with %d parts" % len(kids)
+    groups = {"single": [bytes([b]) for b in range(256)],
+              "followed": [bytes([b]) + f for b in list(range(0, 48)) + [34, 37, 92, 127, 128, 255] for f in (b"1", b"a", b"s", b"(", b"7")],
+              "longer": [b"", b"a%sb", b'say "hi"', b"100%", b"%(1%)", b"\\n", b"tab\there", b"\x001", bytes(range(1, 40)), b"\xff\x00\x7f0"]}
+    for g, strs in sorted(groups.items()):
+        key = "Z2:" + g
+        bad = None
+        for bs in strs:
+            try:
+                text = written(bs)
+            except OutOfBounds as x:
+                bad = bad or "rendering %r reads or writes out of bounds: %s" % (bs, x)
+                continue
+            except Thrown as x:
+                bad = bad or "rendering %r raises %s" % (bs, x)
+                continue
+            got = read(text)
+            if got != bs and bad is None:
+                bad = "the bytes %r are printed as %s, which reads back as %s" % (bs, text.decode("latin-1"), got if isinstance(got, str) else repr(got))
+        inst.append((key, {"strings": len(strs)}))
+        if bad:
+            findings.append({"key": key, "where": where,
+                             "msg": "brief string rendering does not read back as the same bytes: %s (different values may print alike)" % bad, "detail": None})
     return inst, findings
 
 
